@@ -104,39 +104,46 @@ Theorem C12_refuted_mode :
   let c := mkCfg (PS "code") (Some (PS "fragment")) (PS "client_secret_basic") false false (PS "RS256") None None None TPlain None in
   in_product c /\ flow_outcome c (mkInp false 32 true true false) = FailAt AuthzProcess /\ flow_outcome c base_inp = FailAt RpInit.
 Proof. split; [in_prod|split; vm_compute; reflexivity]. Qed.
+Print Assumptions C12_refuted_mode.
 
 Theorem C12_refuted_hs_id_token :
   let c := mkCfg (PS "code") None (PS "client_secret_basic") false false (PS "HS256") None None None TPlain None in
   let c' := mkCfg (PS "id_token") None (PS "client_secret_basic") false false (PS "HS256") None None None TPlain None in
   in_product c /\ flow_outcome c base_inp = FailAt TokenEp /\ in_product c' /\ flow_outcome c' base_inp = FailAt AuthzProcess.
 Proof. split; [in_prod|split; [vm_compute; reflexivity|split; [in_prod|vm_compute; reflexivity]]]. Qed.
+Print Assumptions C12_refuted_hs_id_token.
 
 Theorem C12_refuted_hs_userinfo :
   let c := mkCfg (PS "code") None (PS "client_secret_basic") false false (PS "RS256") None (Some (PS "HS256")) None TPlain None in
   in_product c /\ flow_outcome c base_inp = FailAt UserinfoEp.
 Proof. split; [in_prod|vm_compute; reflexivity]. Qed.
+Print Assumptions C12_refuted_hs_userinfo.
 
 Theorem C12_refuted_kw_secret :
   let c := mkCfg (PS "code") None (PS "client_secret_basic") false false (PS "RS256") None None
                  (Some (PS "A128KW", PS "A128GCM")) TPlain None in
   in_product c /\ flow_outcome c (mkInp false 56 false true false) = FailAt UserinfoEp /\ flow_outcome c base_inp = Completed.
 Proof. split; [in_prod|split; vm_compute; reflexivity]. Qed.
+Print Assumptions C12_refuted_kw_secret.
 
 Theorem C12_refuted_byref_nonce :
   let c := mkCfg (PS "code id_token") None (PS "client_secret_basic") false false (PS "RS256") None None None TRequestUri None in
   let c' := mkCfg (PS "id_token") None (PS "client_secret_basic") false false (PS "RS256") None None None TPar None in
   in_product c /\ flow_outcome c base_inp = FailAt AuthzParse /\ in_product c' /\ flow_outcome c' base_inp = FailAt AuthzParse.
 Proof. split; [in_prod|split; [vm_compute; reflexivity|split; [in_prod|vm_compute; reflexivity]]]. Qed.
+Print Assumptions C12_refuted_byref_nonce.
 
 Theorem C12_refuted_byref_consent :
   let c := mkCfg (PS "code") None (PS "client_secret_basic") false false (PS "RS256") None None None TPar None in
   in_product c /\ flow_outcome c (mkInp true 32 false true false) = FailAt AuthzParse /\ flow_outcome c base_inp = Completed.
 Proof. split; [in_prod|split; vm_compute; reflexivity]. Qed.
+Print Assumptions C12_refuted_byref_consent.
 
 Theorem C12_refuted_par_jwt :
   let c := mkCfg (PS "code") None (PS "private_key_jwt") false false (PS "RS256") None None None TPar None in
   in_product c /\ flow_outcome c base_inp = FailAt Par.
 Proof. split; [in_prod|vm_compute; reflexivity]. Qed.
+Print Assumptions C12_refuted_par_jwt.
 
 Theorem C12_refuted_shadow :
   let c := mkCfg (PS "id_token") None (PS "client_secret_basic") false false (PS "RS256") None None None TPlain None in
@@ -144,16 +151,19 @@ Theorem C12_refuted_shadow :
   /\ flow_outcome c (mkInp false 32 true false false) = FailAt AuthzParse /\ flow_outcome c base_inp = Completed
   /\ op_adv_rts false = [PS "code"].
 Proof. split; [in_prod|repeat split; vm_compute; reflexivity]. Qed.
+Print Assumptions C12_refuted_shadow.
 
 Theorem C12_refuted_par_claims :
   let c := mkCfg (PS "code") None (PS "client_secret_basic") false false (PS "RS256") None None None TPar None in
   in_product c /\ flow_outcome c (mkInp false 32 false true true) = FailAt AuthzProcess /\ flow_outcome c base_inp = Completed.
 Proof. split; [in_prod|split; vm_compute; reflexivity]. Qed.
+Print Assumptions C12_refuted_par_claims.
 
 (* the ID Token encryption a client registers is never applied by the provider (the flow completes with a
    signed-only ID Token): a limit of another kind, reported by the driver's artefact oracle *)
 Theorem C12_idt_enc_ignored : forall c, idt_encrypted c = false.
 Proof. reflexivity. Qed.
+Print Assumptions C12_idt_enc_ignored.
 
 (* ---- artefacts: for every response type the relying party supports, what it reads from the authorization
         response is what the provider puts there (create_authn_response probed on a real provider;
